@@ -52,7 +52,7 @@ pub fn run(ctx: &Ctx) -> i32 {
     let none = CompressionWithLevel::None;
 
     // ---- destinations
-    let maxlen = if ctx.thorough() { 7 } else { 5 };
+    let maxlen = if ctx.thorough() { 9 } else { 5 };
     let n = strings_count(DTOK.len(), maxlen);
     let a = merge(par_fold(n, Acc::new, |i, acc| {
         let mut t = vec![];
@@ -79,7 +79,7 @@ pub fn run(ctx: &Ctx) -> i32 {
     let s1 = SubReport::new("destinations", "A", &format!("every sequence of ≤ {} tokens over {:?} ({} strings) as FileOptions destination through with_file + build; oracle: no panic; Err when the string does not start with '/' or './', has no name component or ends in '..'; non-trivial = accepted", maxlen, DTOK, n), a);
 
     // ---- the same payload path named twice (two with_file calls), in its two spellings './P' and '/P'
-    let plen = if ctx.thorough() { 7 } else { 6 };
+    let plen = if ctx.thorough() { 9 } else { 6 };
     let np = strings_count(DTOK.len(), plen);
     let a2 = merge(par_fold(np * 3, Acc::new, |j, acc| {
         let (i, variant) = (j / 3, j % 3);
@@ -119,6 +119,108 @@ pub fn run(ctx: &Ctx) -> i32 {
         }
     }));
     let s1b = SubReport::new("destination-pairs", "A", &format!("two with_file calls naming the same payload path: every destination of ≤ {} tokens that starts with '/' or './' × {{twice the same string, './P' then '/P', '/P' then './P'}}; oracle: build returns Ok or Err, never panics. non-trivial = accepted", plen), a2);
+
+    // ---- any two destinations in one builder: the same directory spelled differently, nested spellings, file-vs-directory clashes
+    let xtok = ["/", ".", "a", "b"];
+    let xlen = if ctx.thorough() { 7 } else { 5 };
+    let mut xs: Vec<String> = vec![];
+    for i in 0..strings_count(xtok.len(), xlen) {
+        let mut t = vec![];
+        strings_nth(i, xtok.len(), &mut t);
+        let d: String = t.iter().map(|x| xtok[*x]).collect();
+        // keep one representative per token pattern that the builder accepts on its own
+        if (d.starts_with('/') || d.starts_with("./")) && !must_reject(&d) && !d.contains("aa") && !d.contains("bb") && !d.contains("ab") && !d.contains("ba") && !d.contains("..") {
+            xs.push(d);
+        }
+    }
+    let nx = xs.len() as u64;
+    let a3 = merge(par_fold(nx * nx, Acc::new, |j, acc| {
+        let (x, y) = (&xs[(j / nx) as usize], &xs[(j % nx) as usize]);
+        acc.evals += 1;
+        let case = || json!({"kind": "destination-cross-pair", "first": x, "second": y});
+        let r = catch(|| {
+            let b = PackageBuilder::new("t", "1", "MIT", "noarch", "s").compression(none).source_date(1_600_000_000u32);
+            let b = b.with_file(&src, FileOptions::new(x.clone())).map_err(|e| err_kind(&e))?;
+            let b = b.with_file(&src, FileOptions::new(y.clone())).map_err(|e| err_kind(&e))?;
+            b.build().map(|_| ()).map_err(|e| err_kind(&e))
+        });
+        match r {
+            Err(p) => acc.viol(panic_violation("destination-cross-pairs", &p, case()).sig("arg", "destination").rank(j)),
+            Ok(Err(k)) => acc.count(&format!("rejected: {}", k)),
+            Ok(Ok(())) => {
+                acc.nontrivial += 1;
+                acc.count("accepted");
+                if j % 4999 == 0 {
+                    acc.sample(j, case);
+                }
+            }
+        }
+    }));
+    let s1c = SubReport::new("destination-cross-pairs", "A", &format!("two with_file calls with every ordered pair of the {} individually acceptable destinations of ≤ {} tokens over {:?} (redundant '/' and '.' components, two file names): the same directory in different spellings, a path used as file and as directory, …; oracle: Ok or Err, never a panic. non-trivial = accepted", nx, xlen, xtok), a3);
+
+    // ---- sources the builder is pointed at: odd modification times, odd kinds of file
+    let mut a4 = Acc::new();
+    {
+        let dir = env.dir().join("sources");
+        let _ = std::fs::create_dir_all(&dir);
+        let mut cases: Vec<(String, std::path::PathBuf)> = vec![];
+        for (i, secs) in [-86_400i64 * 365 * 69, -86_400 * 366, -2, -1, 0, 1, (1i64 << 31) - 1, 1 << 31, (1i64 << 32) - 1, 1 << 32, (1 << 32) + 1, 1 << 33, 253_402_300_799].iter().enumerate() {
+            for nanos in [0u32, 500_000_000] {
+                let p = dir.join(format!("mtime-{}-{}", i, nanos));
+                std::fs::write(&p, b"hello").expect("temp source");
+                let st = if *secs >= 0 { std::time::UNIX_EPOCH.checked_add(std::time::Duration::new(*secs as u64, nanos)) } else { std::time::UNIX_EPOCH.checked_sub(std::time::Duration::new((-*secs) as u64, 0)).and_then(|t| t.checked_add(std::time::Duration::new(0, nanos))) };
+                let Some(st) = st else { continue };
+                let f = std::fs::OpenOptions::new().write(true).open(&p).expect("open");
+                if f.set_modified(st).is_err() || std::fs::metadata(&p).and_then(|m| m.modified()).ok() != Some(st) {
+                    a4.count("file system cannot store this mtime (skipped)");
+                    continue;
+                }
+                cases.push((format!("regular file with mtime {} s + {} ns", secs, nanos), p));
+            }
+        }
+        cases.push(("a directory".into(), dir.clone()));
+        cases.push(("a path that does not exist".into(), dir.join("missing")));
+        cases.push(("an empty path".into(), std::path::PathBuf::new()));
+        let dangling = dir.join("dangling-link");
+        let _ = std::os::unix::fs::symlink("nowhere", &dangling);
+        cases.push(("a dangling symbolic link".into(), dangling));
+        let looped = dir.join("loop");
+        let _ = std::os::unix::fs::symlink("loop", &looped);
+        cases.push(("a symbolic link to itself".into(), looped));
+        let unreadable = dir.join("mode-000");
+        std::fs::write(&unreadable, b"x").expect("temp");
+        let _ = std::fs::set_permissions(&unreadable, std::os::unix::fs::PermissionsExt::from_mode(0o000));
+        cases.push(("a file with mode 000".into(), unreadable));
+        for k in [KERNEL_SOURCE, "/proc/self/status", "/dev/null", "/proc/self/exe"] {
+            if std::path::Path::new(k).exists() {
+                cases.push((format!("special file {}", k), k.into()));
+            }
+        }
+        for (i, (what, path)) in cases.iter().enumerate() {
+            for dest in ["/f", "./d/f"] {
+                a4.evals += 1;
+                let case = json!({"kind": "source", "source": what, "destination": dest});
+                let r = catch(|| {
+                    PackageBuilder::new("t", "1", "MIT", "noarch", "s")
+                        .compression(none)
+                        .with_file(path, FileOptions::new(dest))
+                        .and_then(|b| b.build())
+                        .map(|_| ())
+                        .map_err(|e| err_kind(&e))
+                });
+                match r {
+                    Err(p) => a4.viol(panic_violation("sources", &p, case).sig("arg", "source").rank(i as u64)),
+                    Ok(Err(k)) => a4.count(&format!("rejected: {}", k)),
+                    Ok(Ok(())) => {
+                        a4.nontrivial += 1;
+                        a4.count("accepted");
+                    }
+                }
+                a4.sample(i as u64, || json!({"source": what}));
+            }
+        }
+    }
+    let s1d = SubReport::new("sources", "A", "with_file + build on source paths of every kind: regular files whose modification time is 1901, −366 d, −2 s … 2^33 s, year 9999 (× whole / half second), a directory, a missing path, an empty path, a dangling and a self-referential symbolic link, a file with mode 000, kernel-backed files, /dev/null; oracle: Ok or Err, never a panic. non-trivial = accepted", a4);
 
     // ---- capability text (the acceptance iff is C19's; here: no panic and unknown text is an error)
     let ctoks = ["cap_chown", "all", "bogus", ",", "=", "+", "e", "p", " ", "\t", "é", "\0"];
@@ -229,7 +331,7 @@ pub fn run(ctx: &Ctx) -> i32 {
     }
     ctx.finish(
         "exploration",
-        vec![s1, s1b, s2, s3, s4],
+        vec![s1, s1b, s1c, s1d, s2, s3, s4],
         &[
             "which in-between destinations (e.g. '/a/.', '/../a') are accepted is not specified; they must only not panic and, if accepted, give a usable package",
             "timestamp arguments of non-integer types (chrono dates before 1970) are outside the statement's 'strings and numbers'",
